@@ -359,6 +359,10 @@ def run_c17_part(ctx):
         sid += 1
     scs.append(mk(sid, "migrate-configured", "migrate", [{"a": "Probe", "tag": 90}, call("c1", 11), {"a": "AnswerError", "tag": 11, "code": 303, "text": "PHONE_MIGRATE_2"},
                {"a": "Await", "c": "c1"}, {"a": "Settle"}], dc={"dc2": 2}))
+    # the application's session storage fails while the migration is handled: the request is still repeated at the new data centre
+    sid += 1
+    scs.append(mk(sid, "migrate-configured-while-the-store-fails", "migrate", [{"a": "Probe", "tag": 90}, call("c1", 11), {"a": "AnswerError", "tag": 11, "code": 303, "text": "PHONE_MIGRATE_2"},
+               {"a": "Await", "c": "c1"}, {"a": "Probe", "tag": 91}, {"a": "Settle"}], dc={"dc2": 2}, failstore=True))
     # the repeated request is the same request: what it registered with the decoder (vector results) goes with it
     for kind in ("vecint", "vecobj", "bool"):
         sid += 1
